@@ -19,6 +19,8 @@ import Proofs.TypesAgree
 import Martian.JsonBytes
 import Proofs.JsonBytes
 import Proofs.JsonBytesFilter
+import Proofs.JsonBytesLocal
+import Proofs.JsonBytesParseA
 import Gen.Facts
 
 namespace Props.C17
@@ -589,6 +591,37 @@ theorem filter_bytes_sound (t : Ty) (hk : tyKeysOk t = true) (a : A) (h : ASound
 theorem filter_bytes_parse (t : Ty) (hk : tyKeysOk t = true) (a : A) (h : ASound a) :
     parseTop (filterA t a).out.raw = some (filterA t a).out.toJ :=
   parseTop_of_den (sound_filterA t hk a h).den
+
+/-- LOCALITY (why `json.RawMessage` slices mean anything): the bytes the parser consumed for a
+value – whatever white space, escapes, duplicate keys or nesting they contain – denote that value
+on their own: followed by anything that may follow a value, they are read as the same tree.  So
+the slice `encoding/json` hands out for a member re-parses to the member's tree. -/
+theorem json_slices_denote (f : Nat) (b : Bytes) (j : J) (r : Bytes) (h : parseV f b = some (j, r)) :
+    Den (consumed (skipWs b) r) j :=
+  parseV_local f b j r h
+
+/-- strings and keys the JSON decoder returns are always valid UTF-8 (invalid input is coerced to
+U+FFFD), so re-encoding a decoded key and reading it back gives the same key -/
+theorem json_decoded_strings_valid (t k r : Bytes) (h : parseStr t = some (k, r)) :
+    Martian.ShellQuote.validUtf8 k = true :=
+  parseStr_valid t k r h
+
+/-- every document the grammar accepts is annotated soundly (no side condition): at every node
+of `parseTopA data` the recorded raw slice denotes the node's tree -/
+theorem json_annotation_sound (data : Bytes) (a : A) (h : parseTopA data = some a) : ASound a :=
+  sound_of_parseTopA data a h
+
+/-- FILTER BYTES, for ALL types (member names valid UTF-8) and ALL inputs the grammar accepts: the
+bytes `FilterJson` returns – input slice or re-encoded containers, at any depth – are a JSON
+document, namely the document of the tree the model returns.  (This turns the former
+"the output must parse and be tree-equal to the model's" correspondence into a theorem about the
+byte-level model `filterBytes`, which is itself compared byte for byte with the real `FilterJson`
+on every case of every run.) -/
+theorem filter_bytes_document (t : Ty) (hk : tyKeysOk t = true) (data out : Bytes) (e : FErr)
+    (h : filterBytes t data = some (out, e)) :
+    ∃ a, parseTopA data = some a ∧ out = (filterA t a).out.raw
+      ∧ parseTop out = some (filterA t a).out.toJ :=
+  filterBytes_parses t hk data out e h
 
 /-- non-vacuity / witnesses, on bytes: `struct A(int a)` filters `{ "x":null, "a" : 1.0 }` to
 `{"a":1}` (re-encoded: member dropped, number rewritten) and returns `{ "a" : 1 }` untouched,
